@@ -16,7 +16,7 @@ pub const RULE: &str = "case = (DNA count matrix of width 1..40 with arbitrary c
 pub const REQUIRED: &[&str] = &[
     "type.count", "type.frequency", "type.weight", "type.scoring", "check.involution", "check.definition",
     "check.commutes", "check.mirrored_scores", "class.finite_wildcard_column", "class.neg_inf_cells",
-    "class.sequence_with_wildcards", "class.width=1",
+    "class.sequence_with_wildcards", "class.width=1", "class.background_with_wildcard_frequency",
 ];
 
 const COMP: [usize; 5] = [2, 3, 0, 1, 4]; // A<->T, C<->G, N<->N  (symbol order A C T G N)
@@ -74,9 +74,15 @@ fn run_case(case: u64, rng: &mut Rng, rep: &mut Report) {
     let cm = CountMatrix::<Dna>::new(dm).unwrap();
     let pseudo = *rng.pick(&[0.0f32, 0.1, 0.5, 1.0]);
     // strand-symmetric background (dyadic): bg[A]=bg[T]=a, bg[C]=bg[G]=c, 2a+2c=1
-    let a = *rng.pick(&[0.25f32, 0.125, 0.375, 0.3125, 0.0625]);
-    let c = 0.5 - a;
-    let bg = match Background::<Dna>::new(GenericArray::from([a, c, a, c, 0.0])) {
+    // optionally a non-zero wildcard frequency n (2a + 2c + n = 1, all dyadic)
+    let n = if rng.chance(0.3) { *rng.pick(&[0.125f32, 0.25, 0.0625]) } else { 0.0 };
+    if n > 0.0 {
+        rep.cover("class.background_with_wildcard_frequency");
+    }
+    let half = (1.0 - n) / 2.0;
+    let a = *rng.pick(&[0.25f32, 0.125, 0.375, 0.3125, 0.0625]) * (1.0 - n);
+    let c = half - a;
+    let bg = match Background::<Dna>::new(GenericArray::from([a, c, a, c, n])) {
         Ok(b) => b,
         Err(_) => {
             fail(rep, "c10.setup", format!("symmetric dyadic background [{},{},{},{},0] rejected", a, c, a, c), J::Null);
